@@ -348,7 +348,7 @@ class CEmitter:
         out.append("}")
         return out
 
-    def emit(self):
+    def emit(self, prologue=""):
         body = []
         for st in self.s.steps:
             body += self.step_code(st)
@@ -356,7 +356,7 @@ class CEmitter:
         includes = "".join('#include "%s.h"\n' % t.name for t in self.prog.types())
         src = PRELUDE.replace("@INCLUDES@", includes)
         src += "\n".join(self.decls) + "\n"
-        src += "int main(void) {\n  setvbuf(stdout, NULL, _IONBF, 0);\n" + objs
+        src += "int main(void) {\n  setvbuf(stdout, NULL, _IONBF, 0);\n" + prologue + objs
         src += "".join("  " + l + "\n" for l in body)
         src += "  printf(\"END\\n\");\n  return 0;\n}\n"
         return src
